@@ -9,6 +9,14 @@ TB = ("TLC 1.8 and the hand-written specification (spec/*.tla); the conformance 
       "inputs by the small-scope arguments of DESIGN.md 2.5")
 
 CHECKS = {
+ "C09": ("model_checking", "The specification states the index-bounds obligations (every Level-I lookup goes through a checked index; checked accessors refuse every index outside the view over the whole model word) and TLC checks them; the TLC-generated cases of ALL families (supports, splines, generator, interpolation, operator expressions with every factor placement, forms, histories) are replayed in a build with ASan + UBSan + libstdc++ assertions, where an observer report becomes an event no specification action explains; the accessor contract incl. indices 2^64-k is validated by TLC.", "5 C09",
+         "TLA+ index/bounds invariants checked by TLC + replay of all TLC-generated executions under sanitizer observers + trace validation"),
+ "C12": ("model_checking", "TLC emits abscissa windows of uniform and strongly non-uniform grids, ordinates, orders 1..3(4) and boundary sets (default, one-sided, mixed, invalid); the real interpolate<Rat, order, exact Gauss solver> runs every case and TLC accepts the returned spline iff InterpPost holds exactly (node values from both adjacent pieces, continuity of derivatives 1..order-1, every boundary row) and the ISolver protocol was followed; a singular report is accepted only outside the sets shown uniquely solvable. The bundled dense (Eigen) route is covered through C20's examples and the floating families, not claimed here.", "5 C12",
+         "TLA+ relational post-condition + TLC-generated cases + exact-solver execution of the real routine + trace validation"),
+ "C16": ("exploration", "For float, double and long double the real library runs the TLC-generated well-scaled dyadic cases (generator, evaluation, + - *, operator application, linear and bilinear forms); TLC supplies the exact value E and the abs-mode magnitude S (checked by TLC to dominate |E|); the harness evaluates |F-E| <= 2^20 eps S in __float128 and TLC judges the recorded verdicts; builds with and without BSPLINE_ADD_TEST_CHECKS must agree bit for bit (thorough: -O0/-O3/clang too).", "5 C16",
+         "TLC-generated cases with exact reference and magnitude from the TLA+ spec + floating-point replay of the real code against the stated relation"),
+ "C17": ("exploration", "integrate<n> (n = 1..6, polynomial weights of degree 0..3, double and long double) on TLC-generated spline pairs on both sides of the exactness bound; TLC supplies the exact weighted integral over the common intervals and its magnitude; the relation is required where 2n-1 >= o1+o2+d, only 'zero when disjoint' elsewhere.", "5 C17",
+         "TLC-generated cases with exact integral from the TLA+ spec + floating-point replay against the stated relation"),
  "C08": ("model_checking", "Every multi-spline entry point is run on TLC-enumerated grid variants (one point moved, extra point front/back/inside, prefix, suffix, equal copy in a distinct object) and placements: stateless events for + - * += -= linearCombination, supports, operators/forms with a foreign spline factor, generator with a supplied grid; plus TLC-generated histories with interleaved cross-grid calls validated sequentially (Trace_Life): refusal with DIFFERING_GRIDS, nothing returned, arguments unchanged; equal grids in distinct objects behave as one.", "5 C08",
          "TLA+ spec + TLC-generated cases and histories + stateless and sequential trace validation of refusals and frame conditions"),
  "C10": ("model_checking", "TLC checks PoolValid and the step contracts on the model of the object-pool state machine (MC_Life: simulation seeded with VERIF_SEED and exhaustive BFS of all two-command continuations) and emits the histories; real objects execute them (builds with and without BSPLINE_ADD_TEST_CHECKS) and the sequential trace specification Trace_Life evaluates the class invariants on every logged object after every step, incl. moved-from objects and failed calls; stateless results of all arithmetic are checked for validity too.", "5 C10",
